@@ -94,6 +94,9 @@ func gid() int {
 	return -1
 }
 
+// GID returns the id of the calling goroutine.
+func GID() int { return gid() }
+
 // Mark records a harness-level event (e.g. "finalise-returned").
 func (s *Scheduler) Mark(step string) { s.Hook(step, nil, 0) }
 
